@@ -192,6 +192,30 @@ theorem byron_fees_sound (ins outs : List Int) (size summand multiplier : Int) (
             · cases h
             · omega
 
+/-! ## The equality test must be the two-way inclusion -/
+
+/-- the one-way variant (same number of policies + consumed side included in the produced side): not what the code has -/
+def oneWayEqual (fma sma : MA) : Bool := fma.length == sma.length && multiAssetIncluded fma sma
+
+/-- counter-model: inputs hold `p.a = 5`, outputs hold `p.a = 5` and `p.b = 1000000`, nothing minted. The one-way test calls the
+    two sides equal, the model's `multiAssetsAreEqual` (two inclusions, as `multi_assets_are_equal` in utils.rs) does not, the
+    rule rejects, and the transaction is indeed not balanced — `preservation_sound` could not be proved over `oneWayEqual`. -/
+theorem one_way_inclusion_is_unsound :
+    oneWayEqual [("p", [("a", 5)])] [("p", [("a", 5), ("b", 1000000)])] = true ∧
+    multiAssetsAreEqual [("p", [("a", 5)])] [("p", [("a", 5), ("b", 1000000)])] = false ∧
+    checkPreservation [.multi 9000000 [("p", [("a", 5)])]] [.multi 8800000 [("p", [("a", 5), ("b", 1000000)])]] 200000 none = .notPreserved ∧
+    ¬ Balanced [.multi 9000000 [("p", [("a", 5)])]] [.multi 8800000 [("p", [("a", 5), ("b", 1000000)])]] 200000 none := by
+  refine ⟨by decide, by decide, by decide, ?_⟩
+  intro h
+  have := h.2 "p" "b"
+  revert this
+  decide
+-- the siblings: a name on the consumed side only, the same name under another policy, a zero quantity on one side (harmless)
+example : checkPreservation [.multi 9000000 [("p", [("a", 5), ("b", 1)])]] [.multi 8800000 [("p", [("a", 5)])]] 200000 none = .notPreserved := by decide
+example : checkPreservation [.multi 9000000 [("p", [("a", 5)])]] [.multi 8800000 [("q", [("a", 5)])]] 200000 none = .notPreserved := by decide
+example : checkPreservation [.multi 9000000 [("p", [("a", 5)])]] [.multi 8800000 [("p", [("a", 5), ("b", 0)])]] 200000 none = .ok := by decide
+example : checkPreservationShelleyMA false [.multi 9000000 [("p", [("a", 5)])]] [.multi 8800000 [("p", [("a", 5), ("b", 7)])]] 200000 none = .notPreserved := by decide
+
 /-! ## Non-vacuity, and the witnesses of DESIGN §6 #21 on the fixed model -/
 section examples
 private def a5 : MA := [("05", [("01", 5)])]
